@@ -105,14 +105,16 @@ class Elab:
     def name_path(self, path):
         return tuple(i.name for i in path)
 
-    def partition(self, keyfn):
-        """Partition of endpoints into connected classes; endpoints renamed by keyfn(path_ids)->key."""
+    def partition(self, keyfn, pinkey=None):
+        """Partition of endpoints into connected classes; endpoints renamed by keyfn(path)->key and, optionally,
+        pinkey(inner_pin)->key (default: identity of the inner pin)."""
         by_pid = {self.pid(p): p for p in self.occ}
         by_pid[()] = ()
         groups = {}
         for e in self.endpoints:
             root = self.uf.find(e)
-            groups.setdefault(root, set()).add((keyfn(by_pid[e[1]]), e[2]))
+            pk = e[2] if pinkey is None else pinkey(self.objs[e[2]])
+            groups.setdefault(root, set()).add((keyfn(by_pid[e[1]]), pk))
         return set(frozenset(g) for g in groups.values())
 
     def wire_classes(self):
